@@ -6,6 +6,7 @@ EXTENDS Naturals, Sequences, TLC, Json
 CONSTANTS MaxLen
 VARIABLES c, sched
 Cfgs == {[i |-> i, o |-> o, s |-> s] : i \in {2, 3, 5}, o \in {0, 1, 4, 7, 11}, s \in {0, 1, 2, 4, 9}}
+        \cup {[i |-> 20, o |-> o, s |-> s] : o \in {0, 3}, s \in {19, 39, 22}}     \* a start just before (and just after) a boundary of a long interval
 Ops(i) == {[op |-> "adv", d |-> d] : d \in {1, i - 1, i, i + 1, 2 * i + 1, 3 * i}} \cup {[op |-> "take", d |-> 0], [op |-> "hold", d |-> 0]}
 Init == c \in Cfgs /\ sched = <<>>
 Next == Len(sched) < MaxLen /\ \E o \in Ops(c.i) : sched' = Append(sched, o) /\ UNCHANGED c
